@@ -62,7 +62,7 @@ func VH_C02_monitor_snapshot() {
 		o := vhC02Object(pool[i].ns, pool[i].name, st)
 		switch kind {
 		case 0:
-			inf.OnAdd(o, false)
+			inf.OnAdd(o, zz.Bool("added_is_in_initial_list"+se))
 			present[i], state[i] = true, st
 		case 1:
 			inf.OnUpdate(nil, o)
